@@ -30,6 +30,10 @@ type faultPlan struct {
 	fired  string
 	log    []string
 	outage bool // the source cannot be opened at all at the moment
+	// persistent: from call failAt on, every call to the cache store fails (also its Remove/Stat/Rename/Chmod) until the
+	// harness ends the outage - a store that is down for a while, not a single hiccup
+	persistent bool
+	down       bool
 	// concurrency monitor
 	writers    map[string]int
 	maxWriters int
@@ -44,9 +48,21 @@ func (p *faultPlan) call(site string) error {
 	p.log = append(p.log, site)
 	if idx == p.failAt {
 		p.fired = site
+		if p.persistent && strings.HasPrefix(site, "store.") {
+			p.down = true
+		}
+		return errFill
+	}
+	if p.down && strings.HasPrefix(site, "store.") {
 		return errFill
 	}
 	return nil
+}
+
+func (p *faultPlan) isDown() bool {
+	p.mu.Lock()
+	defer p.mu.Unlock()
+	return p.down
 }
 
 // faultSource: only Open; files fail Read at the planned index.
@@ -138,12 +154,33 @@ type fullFaultStore struct {
 }
 
 func (s *fullFaultStore) MkdirAll(p string, perm hackpadfs.FileMode) error {
+	if s.plan.isDown() {
+		return &hackpadfs.PathError{Op: "mkdir", Path: p, Err: errFill}
+	}
 	return s.inner.MkdirAll(p, perm)
 }
-func (s *fullFaultStore) Remove(name string) error                     { return s.inner.Remove(name) }
-func (s *fullFaultStore) Rename(a, b string) error                     { return s.inner.Rename(a, b) }
-func (s *fullFaultStore) Stat(name string) (hackpadfs.FileInfo, error) { return s.inner.Stat(name) }
+func (s *fullFaultStore) Remove(name string) error {
+	if s.plan.isDown() {
+		return &hackpadfs.PathError{Op: "remove", Path: name, Err: errFill}
+	}
+	return s.inner.Remove(name)
+}
+func (s *fullFaultStore) Rename(a, b string) error {
+	if s.plan.isDown() {
+		return &hackpadfs.LinkError{Op: "rename", Old: a, New: b, Err: errFill}
+	}
+	return s.inner.Rename(a, b)
+}
+func (s *fullFaultStore) Stat(name string) (hackpadfs.FileInfo, error) {
+	if s.plan.isDown() {
+		return nil, &hackpadfs.PathError{Op: "stat", Path: name, Err: errFill}
+	}
+	return s.inner.Stat(name)
+}
 func (s *fullFaultStore) Chmod(name string, m hackpadfs.FileMode) error {
+	if s.plan.isDown() {
+		return &hackpadfs.PathError{Op: "chmod", Path: name, Err: errFill}
+	}
 	return s.inner.Chmod(name, m)
 }
 
@@ -221,6 +258,9 @@ func c11cases(env *core.Env) []c11case {
 	}
 	for i := 0; i < env.Pick(150, 1500); i++ {
 		cs = append(cs, c11case{Part: "free", Rep: i})
+	}
+	for i := 0; i < env.Pick(120, 1500); i++ {
+		cs = append(cs, c11case{Part: "faultgated", Rep: i})
 	}
 	return cs
 }
@@ -301,6 +341,8 @@ func c11run(env *core.Env, idx int) core.CaseResult {
 	switch cs.Part {
 	case "fault":
 		c11fault(env, cs, &res)
+	case "faultgated":
+		c11faultGated(env, cs, idx, &res)
 	default:
 		c11concurrent(env, cs, idx, &res)
 	}
@@ -327,14 +369,20 @@ func c11fault(env *core.Env, cs c11case, res *core.CaseResult) {
 	sites := append([]string(nil), clean.plan.log...)
 	res.Evals = n
 	res.Sample = map[string]any{"case": cs, "calls_of_a_clean_fill": sites}
-	for kk := 0; kk < 2*n; kk++ {
-		k, outage := kk%n, kk >= n // second round: the first retry after the failed fill meets a source that cannot be opened
+	for kk := 0; kk < 3*n; kk++ {
+		// second round: the first retry after the failed fill meets a source that cannot be opened;
+		// third round: the cache store stays down from the failing call until the Open has returned (then recovers)
+		k, outage, persistent := kk%n, kk >= n && kk < 2*n, kk >= 2*n
+		if persistent && !strings.HasPrefix(sites[k], "store.") {
+			continue
+		}
 		w, err := newC11World(cs.Store, files, cs.Mode)
 		if err != nil {
 			res.Inconclusive = err.Error()
 			return
 		}
 		w.plan.failAt = k
+		w.plan.persistent = persistent
 		var f hackpadfs.File
 		var oerr error
 		if p := core.Recover(func() { f, oerr = w.cache.Open(name) }); p != "" {
@@ -348,9 +396,12 @@ func c11fault(env *core.Env, cs c11case, res *core.CaseResult) {
 			continue
 		}
 		res.Count("fault_runs", 1)
-		res.NTKeys = append(res.NTKeys, core.Hash([]any{cs, k, outage}))
+		res.NTKeys = append(res.NTKeys, core.Hash([]any{cs, k, outage, persistent}))
+		if persistent {
+			res.Count("store_outage_runs", 1)
+		}
 		res.Seen("fault_sites", cs.Store+"|"+w.plan.fired)
-		wit := map[string]any{"case": cs, "fault_index": k, "site": w.plan.fired, "fill_calls": sites, "source_outage_during_first_retry": outage}
+		wit := map[string]any{"case": cs, "fault_index": k, "site": w.plan.fired, "fill_calls": sites, "source_outage_during_first_retry": outage, "store_down_until_open_returned": persistent}
 		if oerr == nil {
 			// the Open claims success: it may only do so if what it hands out is complete
 			got, rerr := io.ReadAll(f)
@@ -365,6 +416,7 @@ func c11fault(env *core.Env, cs c11case, res *core.CaseResult) {
 		w.plan.mu.Lock()
 		w.plan.failAt = -1
 		w.plan.outage = outage
+		w.plan.down, w.plan.persistent = false, false // the store is back
 		w.plan.mu.Unlock()
 		if outage {
 			got, err := readAll(w.cache, name)
@@ -471,4 +523,118 @@ func c11concurrent(env *core.Env, cs c11case, idx int, res *core.CaseResult) {
 		res.Sample = map[string]any{"case": cs, "size": size, "openers": k, "pause_before_chunk": pauseAt, "successful": okOpens, "max_copies_in_progress": w.plan.maxWriters}
 	}
 	_ = time.Now
+}
+
+// c11faultGated: a failed fill combined with concurrency. A's fill fails on a source read while B is already waiting for
+// the same name; B then re-fills, and C arrives while B's copy is in progress. Every open that succeeds must deliver the
+// complete bytes and at no time may two copies of the file be in progress.
+func c11faultGated(env *core.Env, cs c11case, idx int, res *core.CaseResult) {
+	r := rand.New(rand.NewSource(env.Seed*17_000_041 + int64(idx)))
+	size := []int{1500, 5000, 20000}[r.Intn(3)]
+	name := "d/shared"
+	want := c11data(size)
+	w, err := newC11World([]string{"minimal", "full"}[r.Intn(2)], map[string][]byte{name: want})
+	if err != nil {
+		res.Inconclusive = err.Error()
+		return
+	}
+	chunks := (size + 511) / 512
+	failChunk := r.Intn(chunks)
+	pause2 := r.Intn(chunks)
+	var inside int32
+	var fills int32
+	startB, startC := make(chan struct{}), make(chan struct{})
+	var onceB, onceC sync.Once
+	waitFor := func(n int32) {
+		for i := 0; i < 4000 && atomic.LoadInt32(&inside) < n; i++ {
+			runtime.Gosched()
+		}
+		for i := 0; i < 50; i++ { // let the newcomer reach the lock
+			runtime.Gosched()
+		}
+	}
+	w.plan.gate = func(n string, chunk int) {
+		if n != name {
+			return
+		}
+		if chunk == 0 {
+			atomic.AddInt32(&fills, 1)
+		}
+		switch atomic.LoadInt32(&fills) {
+		case 1:
+			onceB.Do(func() { close(startB) })
+			if chunk == failChunk {
+				waitFor(2) // B is inside Open, queued behind this fill
+				w.plan.mu.Lock()
+				w.plan.failAt = w.plan.n // the read that follows fails
+				w.plan.mu.Unlock()
+			}
+		case 2:
+			if chunk == pause2 {
+				onceC.Do(func() { close(startC) })
+				waitFor(3) // C arrives while this second copy is in progress
+			}
+		}
+	}
+	type outcome struct {
+		data []byte
+		err  error
+	}
+	outs := make([]outcome, 3)
+	var wg sync.WaitGroup
+	run := func(i int, start chan struct{}) {
+		defer wg.Done()
+		if start != nil {
+			select {
+			case <-start:
+			case <-time.After(5 * time.Second): // the expected phase never came (e.g. the first fill did not fail): open anyway
+			}
+		}
+		atomic.AddInt32(&inside, 1)
+		d, err := readAll(w.cache, name)
+		outs[i] = outcome{d, err}
+		if i == 0 {
+			onceB.Do(func() { close(startB) })
+		}
+		if i == 1 {
+			onceC.Do(func() { close(startC) })
+		}
+	}
+	wg.Add(3)
+	go run(0, nil)
+	go run(1, startB)
+	go run(2, startC)
+	hung, confirmed := withWatchdog(wg.Wait)
+	wit := map[string]any{"case": cs, "size": size, "first_fill_fails_before_chunk": failChunk, "second_fill_paused_before_chunk": pause2, "chunks": chunks}
+	if hung {
+		if confirmed {
+			res.Violate("C11|concurrent|faultgated|hang", "the three opens did not return; goroutine dump shows them parked on a lock", wit)
+		} else {
+			res.Inconclusive = "concurrent opens did not finish"
+		}
+		return
+	}
+	okOpens := 0
+	for i, o := range outs {
+		if o.err == nil {
+			okOpens++
+			if string(o.data) != string(want) {
+				res.Violate("C11|concurrent|faultgated|partial", fmt.Sprintf("opener %c got %d of %d bytes without an error (A's fill failed before chunk %d, B's re-fill was paused before chunk %d of %d while C opened)", 'A'+i, len(o.data), len(want), failChunk, pause2, chunks), wit)
+			}
+		}
+	}
+	if w.plan.maxWriters > 1 {
+		res.Violate(fmt.Sprintf("C11|concurrent|faultgated|copies-in-progress=%d", min(w.plan.maxWriters, 2)), fmt.Sprintf("%d copies of %q were in progress in the cache store at the same time after a failed fill", w.plan.maxWriters, name), wit)
+	}
+	// afterwards, fault-free: complete bytes or an error
+	w.plan.mu.Lock()
+	w.plan.failAt, w.plan.gate = -1, nil
+	w.plan.mu.Unlock()
+	if got, err := readAll(w.cache, name); err == nil && string(got) != string(want) {
+		res.Violate("C11|concurrent|faultgated|later-open-partial", fmt.Sprintf("a later open delivered %d of %d bytes without an error", len(got), len(want)), wit)
+	}
+	res.Nontrivial = atomic.LoadInt32(&fills) >= 2 && outs[0].err != nil
+	res.Count("faultgated_groups", 1)
+	res.Count("faultgated_first_fill_failed", map[bool]int{true: 1}[outs[0].err != nil])
+	res.Count("faultgated_fills", int(atomic.LoadInt32(&fills)))
 }
